@@ -11,7 +11,7 @@
 // verified against that same contract for every MAX_STREAMS by back end V (unit `streams_sync`).
 
 // @module streams_manager
-// @sizes sm_proofs: m1=quick m2=quick m4=thorough
+// @sizes sm_proofs: m1=quick m2=quick m4=quick
 #[allow(unused_imports)] use super::*;
 #[allow(unused_imports)] use crate::ogre_std::ogre_queues::atomic::atomic_move::verif_hooks::RingModel;
 use std::task::{RawWaker, RawWakerVTable};
